@@ -94,14 +94,14 @@ Proof. exact agree_implies_holds. Qed.
 Print Assumptions C04_agree_implies_holds.
 
 (* (T) Obligation over data regenerated from the CURRENT source on every run (translator in harness/c04.py ->
-   coq/Gen/C04_Gen.v): on a fixed grid of 32 scenarios (all flag combinations x destination absent/present x
-   two bodies, four real kills each) the recorded traces, outcomes and directories are exactly the model's
+   coq/Gen/C04_Gen.v): on a fixed grid of 40 scenarios (all flag combinations x destination absent/present x
+   two bodies, four real kills each; eight injected-failure paths) the recorded traces, outcomes and directories are exactly the model's
    (gen_trace = save cfg body) and satisfy the Spec's predicates.  A source change that alters any of them
    breaks this obligation at build time. *)
 Theorem C04_recorded_grid : forallb (fun c => agree c && holds c) gen_cases = true.
 Proof. exact gen_cases_ok. Qed.
 Print Assumptions C04_recorded_grid.
-Example C04_recorded_grid_size : length gen_cases = 32%nat.
+Example C04_recorded_grid_size : length gen_cases = 40%nat.
 Proof. exact gen_cases_count. Qed.
 
 (* the initial directories used by the correspondence run satisfy the well-formedness hypothesis *)
